@@ -49,6 +49,8 @@
 //     call or such a write;
 //   - []error literals, append on them and errors.Join are lists of optional
 //     texts and "first non-nil" (errors.Join is non-nil iff an element is);
+//   - opaque calls and reads from abstract objects are not allowed inside
+//     loops (one parameter cannot stand for a different result per iteration);
 //   - any other call is *opaque*: its result becomes an extra parameter of the
 //     Lean definition (`o<k>_<callee>`, one per call site, in order of
 //     appearance) and, when "trace" is set, the definition also returns the
@@ -714,6 +716,9 @@ func (c *fctx) expr(e ast.Expr) ex {
 // opaqueValue turns an expression the subset cannot express (an element of a
 // slice, a field of a library struct) into an extra parameter holding its value.
 func (c *fctx) opaqueValue(e ast.Expr) ex {
+	if c.loop != nil {
+		fail("value %s read from an abstract object inside a loop", c.show(e))
+	}
 	lt := c.t.valType(c.typeOf(e))
 	key := c.show(e)
 	if c.opaqueVals == nil {
@@ -1086,6 +1091,10 @@ func (c *fctx) call(x *ast.CallExpr) ex {
 		}
 	}
 	// opaque call
+	if c.loop != nil {
+		// one parameter cannot stand for the results of the call in every iteration
+		fail("opaque call %s inside a loop", c.show(x))
+	}
 	lt := c.t.valType(c.typeOf(x))
 	c.opaqueVals = nil // an external call may change what abstract objects hold
 	if c.opaqueCalls == nil {
@@ -1860,7 +1869,15 @@ func (c *fctx) abstractTarget(lhs ast.Expr) bool {
 			return false
 		}
 	}
-	return c.t.isAbstract(c.typeOf(se.X)) || c.abstractTarget(se.X)
+	if c.t.isAbstract(c.typeOf(se.X)) || c.abstractTarget(se.X) {
+		return true
+	}
+	// a field of abstract type inside a translated struct is not part of the
+	// Lean structure: writing it is an effect as well
+	if sel := c.p.info.Selections[se]; sel != nil && sel.Kind() == types.FieldVal && c.t.isAbstract(sel.Obj().Type()) {
+		return true
+	}
+	return false
 }
 
 // abstractWrite records an assignment to a field of an abstract object in the trace.
